@@ -7,12 +7,14 @@
 (*     prefixed, as ONE record to the logger and forgets them.             *)
 (*   OrderedSet (labtech/utils.py): add / remove / contains / iteration in *)
 (*     first-insertion order / length / concatenation.                     *)
+(*   ProcessMonitor (labtech/runners/process.py): the active-task set kept *)
+(*     from the queue of start / end events.                               *)
 (* Spec enumerates every call sequence up to MaxLen; Judge compares what   *)
 (* the real classes returned (lv/rigs/small.py) with the model.            *)
 (***************************************************************************)
 EXTENDS Naturals, Sequences, FiniteSets, TLC, Json, IOUtils
 
-CONSTANTS MaxLen, Which        \* Which \in {"proxy", "oset"}
+CONSTANTS MaxLen, Which        \* Which \in {"proxy", "oset", "monitor"}
 
 (* ---------------- LoggerFileProxy ---------------- *)
 Frags == {"a", "b", " ", ""}                 \* " " and "" are whitespace-only
@@ -38,11 +40,24 @@ OsetReply(s, op) == CASE op[1] = "add" -> "none"
                       [] op[1] = "items" -> ToString(s)
                       [] op[1] = "len" -> ToString(Len(s))
 
+(* ---------------- ProcessMonitor (labtech/runners/process.py) ---------------- *)
+(* workers put ProcessStartEvent / ProcessEndEvent on a queue; a poll consumes the queue in order and keeps the  *)
+(* set of active task names: a name is active iff its last consumed event is a start.  state: <<queue, active>> *)
+Names == {"p", "q"}
+MonOps == {<<"start", n>> : n \in Names} \cup {<<"end", n>> : n \in Names} \cup {<<"poll", "">>}
+RECURSIVE Consume(_, _)
+Consume(q, act) == IF q = <<>> THEN act
+                   ELSE LET e == Head(q) IN
+                        Consume(Tail(q), IF e[1] = "start" THEN (IF InSeq(act, e[2]) THEN act ELSE Append(act, e[2]))
+                                         ELSE Without(act, e[2]))
+MonStep(s, op) == IF op[1] = "poll" THEN <<<<>>, Consume(s[1], s[2])>> ELSE <<Append(s[1], op), s[2]>>
+MonReply(s, op) == IF op[1] = "poll" THEN ToString(Consume(s[1], s[2])) ELSE "none"
+
 VARIABLES st, hist
 svars == <<st, hist>>
-TheOps == IF Which = "proxy" THEN ProxyOps ELSE OsetOps
-Step(s, op) == IF Which = "proxy" THEN ProxyStep(s, op) ELSE OsetStep(s, op)
-Init == st = (IF Which = "proxy" THEN <<<<>>, <<>>>> ELSE <<>>) /\ hist = <<>>
+TheOps == IF Which = "proxy" THEN ProxyOps ELSE IF Which = "oset" THEN OsetOps ELSE MonOps
+Step(s, op) == IF Which = "proxy" THEN ProxyStep(s, op) ELSE IF Which = "oset" THEN OsetStep(s, op) ELSE MonStep(s, op)
+Init == st = (IF Which = "proxy" THEN <<<<>>, <<>>>> ELSE IF Which = "oset" THEN <<>> ELSE <<<<>>, <<>>>>) /\ hist = <<>>
 Next == \E op \in TheOps : Len(hist) < MaxLen /\ hist' = Append(hist, op) /\ st' = Step(st, op)
 Spec == Init /\ [][Next]_svars
 
@@ -57,8 +72,12 @@ RECURSIVE Run(_, _)
 Run(s, ops) == IF ops = <<>> THEN s ELSE Run(Step(s, Head(ops)), Tail(ops))
 RECURSIVE Replies(_, _)
 Replies(s, ops) == IF ops = <<>> THEN <<>> ELSE <<OsetReply(s, Head(ops))>> \o Replies(OsetStep(s, Head(ops)), Tail(ops))
+RECURSIVE MonReplies(_, _)
+MonReplies(s, ops) == IF ops = <<>> THEN <<>> ELSE <<MonReply(s, Head(ops))>> \o MonReplies(MonStep(s, Head(ops)), Tail(ops))
+ActiveNeverEnded == Which = "monitor" => \A i \in DOMAIN st[2] : \A j \in DOMAIN st[2] : i # j => st[2][i] # st[2][j]
 Agrees(o) == IF Which = "proxy" THEN o.delivered = Run(<<<<>>, <<>>>>, o.ops)[2]
-             ELSE o.replies = Replies(<<>>, o.ops)
+             ELSE IF Which = "oset" THEN o.replies = Replies(<<>>, o.ops)
+             ELSE o.replies = MonReplies(<<<<>>, <<>>>>, o.ops)
 Judge(x) == \A k \in 1..Len(Obs) : x >= 0 /\ PrintT("@@" \o ToJson([id |-> Obs[k].id, ok |-> Agrees(Obs[k])]))
 JudgePost == Judge(TLCGet("distinct"))
 =============================================================================
